@@ -107,6 +107,30 @@ def check_scale(scale, part):
                 part.violation("C20/range-table/%s" % scale, "label disagrees with the STIX 2.1 Appendix A range table", case, exp, res, repro)
             if kind == "ok":
                 labels_seen.append((v, res))
+    # other KINDS of argument: something that is not a number is refused (never labelled); a number that EQUALS an integer n of the range (50.0, Decimal(50), True ...)
+    # is refused or gets exactly n's label; whatever is returned is a label of the scale
+    import decimal
+    import fractions
+    all_labels = {lab for lo, hi, lab, rep in TABLES[scale]}
+    for arg in (None, "", [], (), {}, "50", "0", b"5", 50.0, 0.0, 100.0, -0.0, decimal.Decimal(50), fractions.Fraction(50), True, False, 4.5, 100.5, -0.5, float("nan"), float("inf"), 1e300):
+        part.evaluations += 1
+        part.transitions += 1
+        kind, res = call(v2l, arg)
+        case = {"scale": scale, "fn": FUNCS[scale][0], "arg": repr(arg)}
+        repro = "import stix2.confidence.scales as S\nprint(S.%s(%s))\n" % (FUNCS[scale][0], repr(arg))
+        part.state((scale, "v2l-kind", repr(arg)), nontrivial=False)
+        is_number = isinstance(arg, (int, float, decimal.Decimal, fractions.Fraction))
+        if kind != "ok":
+            part.outcome("other-kind-refused")
+            continue
+        part.outcome("other-kind-labelled")
+        whole = is_number and arg == arg and arg not in (float("inf"),) and arg == int(arg) and 0 <= int(arg) <= 100
+        if not is_number:
+            part.violation("C20/non-number-labelled/%s" % scale, "an argument that is not a number gets a label instead of being refused", case, "refused", res, repro)
+        elif res not in all_labels:
+            part.violation("C20/result-is-not-a-label/%s" % scale, "the conversion returns something that is not a label of the scale", case, "a label of the scale or a refusal", res, repro)
+        elif whole and res != expected_label(scale, int(arg)):
+            part.violation("C20/equal-number-other-label/%s" % scale, "a number equal to an integer of the range gets another label than that integer", case, expected_label(scale, int(arg)), res, repro)
     # table-independent: along 0..100 each label occupies one contiguous interval (moves one way only)
     order = []
     for v, lab in labels_seen:
